@@ -645,7 +645,10 @@ class _ExecutorManagerThread(threading.Thread):
                 # When only cancelled futures remain in pending_work_items, the
                 # next call to wait_result_broken_or_wakeup would hang forever.
                 # This makes sure we have some running futures or none at all.
-                self.add_call_item_to_queue()
+                # (Nothing to do if all work items were discarded by a forced
+                # shutdown: their ids are still in the work_ids queue.)
+                if self.pending_work_items:
+                    self.add_call_item_to_queue()
 
                 # Since no new work items can be added, it is safe to shutdown
                 # this thread if there are no pending work items.
